@@ -7,7 +7,8 @@ RULE = ('0..16 connections each in {J just accepted, I idle keep-alive, H half-s
         'connection, after the state is established, concurrently with 6 new connects} x bind {127.0.0.1, 0.0.0.0}; '
         'when there are more connections than workers only the shutdown itself (return, port, trace) is judged, since the '
         'surplus connections merely queue; non-trivial = at least one connection or a concurrent signal')
-ASSUMPTIONS = ['threaded runtime (tokio twin via the tokio harness when present)',
+NEEDS_TOKIO = True
+ASSUMPTIONS = ['the tokio runtime (select! on a cancellation token) is judged by the same observations but has no event trace',
                'latency bound 2 s is observed, not proved; kernel backlog behaviour as modelled (FIFO accept queue)',
                'the trace log appends after the action it records: a flag observation may be logged before the store event; '
                'the replay reorders exactly that pair']
@@ -65,6 +66,31 @@ def run(ctx):
             continue
         if line.split(' ')[3] != '-' or ' concurrent' in line:
             ctx.mark_nontrivial(line + f.get('trace', ''))
+    # tokio runtime: same scenarios, judged by the observations (return latency, port, in-flight responses)
+    if not ctx.replay:
+        tl = lines[::2] if ctx.tier != 'thorough' else lines
+        # every spawned task gets its own worker in tokio: capacity is not an issue
+        tl = [' '.join(l.split(' ')[:5] + ['1']) for l in tl]
+        tim = ctx.impl(tl, tokio=True)
+        ctx.evaluations += len(tl)
+        for line, b in zip(tl, tim):
+            case = {'line': line, 'runtime': 'tokio'}
+            ctx.count('tokio:when:' + line.split(' ')[4])
+            if not b.startswith('returned='):
+                ctx.report(case, b, 'scenario runs', cls='shutdown-harness', failing_input=(b in ('PANIC', 'DIED', 'TIMEOUT')),
+                           what='tokio shutdown scenario failed: ' + b)
+                continue
+            f = dict(kv.split('=', 1) for kv in b.split(' ') if '=' in kv)
+            ok, tot = f['inflight'].split('/')
+            if f['returned'] == 'never' or int(f['returned']) > 2000:
+                ctx.report(case, b[:300], 'run returns within 2 s', cls='shutdown-hang', failing_input=True, what='tokio run did not return promptly')
+            elif f['rebind'] != '1':
+                ctx.report(case, b[:300], 'port can be bound again', cls='shutdown-port', failing_input=True, what='tokio: port not freed')
+            elif f['probe'] != '1':
+                ctx.report(case, b[:300], 'served before the signal', cls='shutdown-early', failing_input=True, what='tokio: request before the signal not served')
+            elif ok != tot:
+                ctx.report(case, b[:300], 'in-flight responses complete', cls='shutdown-truncated', failing_input=True,
+                           what='tokio: response to a request received before the signal truncated (%s)' % f['inflight'])
     for k in (0, len(lines) // 2):
         if k < len(lines):
             ctx.sample({'scenario': lines[k], 'observed': im[k][:300], 'model': m[k]})
